@@ -24,5 +24,5 @@ run_cmd do
       IO.println s!"THEOREM {n} AXIOMS {axs.toList}"
     | some (.defnInfo _) =>
       -- `def Cxx_full : Prop := …` open statements are reported, never counted
-      if (n.toString.endsWith "_full") then IO.println s!"OPEN {n}"
+      if (n.toString.endsWith "_full") || (n.toString.endsWith "_open") then IO.println s!"OPEN {n}"
     | _ => pure ()
